@@ -34,22 +34,15 @@ Fixpoint vdepth (v : value) : nat :=
   | _ => 1%nat
   end.
 
-(** a box array of shape [1] with map keys is written [[1], keys, [{"b":..}]], which is also a list
-    of three boxed values (tried first): the one case in which top-level map keys do not come back *)
-Definition map1_free (v : value) : bool :=
-  match v with VBox [1%nat] _ => false | _ => true end.
-
 (** what a value with a top-level label or top-level map keys reads back as (theorems
     label_json_roundtrip / map_json_roundtrip); no statement for label together with keys (outside
-    the model) and for the excluded one-row box map *)
+    the model) *)
 Definition meta_expect (m : mval) : option mval :=
   match m with
   | MV v None None => Some (MV (norm v) None None)
   | MV v (Some l) None => Some (MV (norm v) (Some l) None)
   | MV v None (Some k) =>
-      if map1_free v
-      then Some (MV (norm v) None (if Nat.eqb (rows (shape_of k)) (rows (shape_of v)) then Some (to_num (norm k)) else None))
-      else None
+      Some (MV (norm v) None (if Nat.eqb (rows (shape_of k)) (rows (shape_of v)) then Some (to_num (norm k)) else None))
   | MV _ (Some _) (Some _) => None
   end.
 (** tie case: (the value that was written, what the implementation read back) *)
